@@ -71,10 +71,17 @@ CreateSub(parent, cookieOn, cookie, initial, header) == \E hsp \in HeaderSpellin
     /\ hist' = Append(hist, [op |-> "create_sub", parent |-> parent, cookieOn |-> cookieOn, cookie |-> cookie, initial |-> initial, header |-> header, hsp |-> hsp])
     /\ UNCHANGED accs
 
+\* flavours that are SUBSCRIBERS of the locale signal (a Memo, an Effect): they hold what they computed when they were last notified.
+\* A tracked set notifies every subscriber of the context's signal (through whichever view it was created), an untracked set
+\* notifies nobody - by definition - and the NEXT tracked set brings the subscribers up to date, whatever value it sets.
+Subscribers == {"memo", "effect"}
 SetLocale(v, x, tracked) ==
     /\ ctxs' = [ctxs EXCEPT ![views[v].ctx].locale = x]
     /\ hist' = Append(hist, [op |-> "set", view |-> v, locale |-> x, tracked |-> tracked])
-    /\ UNCHANGED <<views, accs>>
+    /\ accs' = [a \in DOMAIN accs |->
+                 IF tracked /\ accs[a].flavour \in Subscribers /\ views[accs[a].view].ctx = views[v].ctx
+                 THEN [accs[a] EXCEPT !.seen = x] ELSE accs[a]]
+    /\ UNCHANGED views
 
 ScopeView(v) ==
     /\ Len(views) < MaxViews /\ views[v].depth < 2
@@ -86,14 +93,15 @@ ScopeView(v) ==
 \* flavour: string / rendered view / Display / t_format! view / t_format_string!
 MakeAccessor(v, key, flavour) ==
     /\ Len(accs) < MaxAccs /\ (key = "inner" => views[v].depth <= 1)
-    /\ accs' = Append(accs, [view |-> v, key |-> key, flavour |-> flavour])
+    /\ accs' = Append(accs, [view |-> v, key |-> key, flavour |-> flavour, seen |-> ctxs[views[v].ctx].locale])
     /\ hist' = Append(hist, [op |-> "make_accessor", view |-> v, key |-> key, flavour |-> flavour])
     /\ UNCHANGED <<ctxs, views>>
 
 \* ---- what is observable after every step (C16) -------------------------------------------------
 ShownLocale(v) == ctxs[views[v].ctx].locale
 Obs == [views |-> [v \in DOMAIN views |-> ShownLocale(v)],
-        accs  |-> [a \in DOMAIN accs |-> accs[a].key \o "-" \o ShownLocale(accs[a].view)]]   \* the text of key k in locale x is "k-x"
+        \* the text of key k in locale x is "k-x"; a subscriber shows the locale it saw at its last notification
+        accs  |-> [a \in DOMAIN accs |-> accs[a].key \o "-" \o (IF accs[a].flavour \in Subscribers THEN accs[a].seen ELSE ShownLocale(accs[a].view))]]
 
 \* setting through any view of a context changes what every view of that context shows, and nothing else
 SetIsolation ==
